@@ -417,9 +417,13 @@ Definition eng_token (inp impl : node) : verdict :=
       let header_of (d : did) : res str := match hdr with Bytes h => Ok h | _ => Err 1 end in
       let verify (d : did) (m sg : str) : bool := vfy && str_eqb m spb in
       let enc_ok := match n with List (_ :: sp :: _) => match sp with Map _ => str_eqb (encode sp) spb | _ => true end | _ => true end in
-      let rd := env_decode verify header_of dtok dlg_from_payload dlg_tag n in
-      let ri := env_decode verify header_of itok inv_from_payload inv_tag n in
-      let rg := generic_decode verify header_of n in
+      (* FromSealed only accepts bytes that are the canonical encoding of the decoded node (the model
+         works on the node: whether the offered bytes were canonical is a fact of the case) *)
+      let canonical := match mget "canonical" facts with Bool false => false | _ => true end in
+      let gate {A} (r : res A) : res A := if canonical then r else Err 20 in
+      let rd := gate (env_decode verify header_of dtok dlg_from_payload dlg_tag n) in
+      let ri := gate (env_decode verify header_of itok inv_from_payload inv_tag n) in
+      let rg := gate (generic_decode verify header_of n) in
       let m := List [fields_res any_fields rg; fields_res dlg_fields rd; fields_res inv_fields ri; Bool enc_ok] in
       let og := nth 0 (nlist impl) Null in
       let od := nth 1 (nlist impl) Null in
